@@ -31,6 +31,9 @@ def ranges_of(s):
     if isinstance(s, RangeSpecifier):
         return [(s.min, s.max, s.include_min, s.include_max)]
     if isinstance(s, UnionSpecifier):
+        for r in s.ranges:
+            if not isinstance(r, RangeSpecifier):  # malformed result (e.g. a union nested in a union)
+                raise ModelError(f"UnionSpecifier-with-{type(r).__name__}-member")
         return [(r.min, r.max, r.include_min, r.include_max) for r in s.ranges]
     raise ModelError(type(s).__name__)
 
@@ -152,7 +155,10 @@ def describe(s):
             ],
         }
     except ModelError:
-        return {"cls": type(s).__name__, "text": str(s)}
+        try:
+            return {"cls": type(s).__name__, "text": str(s)}
+        except Exception:  # noqa: BLE001
+            return {"cls": type(s).__name__, "text": "<unprintable>"}
 
 
 def brief(s) -> str:
